@@ -93,7 +93,10 @@ def main(cmd, args):
         seeded = os.path.join(VERIF, 'seeded')
         missed = []
         rows = []
+        only = [x for x in os.environ.get('SELFTEST_ONLY', '').split(',') if x]
         for sid in sorted(os.listdir(seeded)):
+            if only and sid not in only:
+                continue
             mp = os.path.join(seeded, sid, 'meta.json')
             if not os.path.exists(mp):
                 continue
@@ -130,6 +133,9 @@ def main(cmd, args):
                     p3 = subprocess.run([os.path.join(VERIF, 'check'), owner, '--replay', path], env=env3, stdout=subprocess.PIPE,
                                         stderr=subprocess.STDOUT, timeout=600)
                     ok = p2.returncode == 1 and p3.returncode == 0
+                    if not ok:
+                        print(f'selftest-sensitivity {sid}: replay on the changed tree exit {p2.returncode}, on the real tree exit '
+                              f'{p3.returncode}: {p3.stdout.decode()[-300:] if p3.returncode else p2.stdout.decode()[-300:]}')
                     os.remove(path)
                 if keep is not None:
                     open(ev, 'w').write(keep)
